@@ -83,6 +83,9 @@ pub struct Case {
     /// sudo updates applied before the call (each a full Params replacing the previous)
     pub updates: Vec<Params>,
     pub req: Req,
+    /// chain clock at the call = genesis mint time minus this many nanoseconds (0: the default clock, one second after genesis)
+    #[serde(default)]
+    pub before_genesis: u64,
 }
 
 struct World {
@@ -305,6 +308,9 @@ fn balances(w: &mut World, factory: &Addr, supply0: &BTreeMap<String, u128>) -> 
 
 pub fn run_case(c: &Case) -> Outcome {
     let mut w = World::new();
+    if c.before_genesis > 0 {
+        chain::set_time(&mut w.app, chain::GENESIS_NS - c.before_genesis);
+    }
     let kind = c.kind;
     let fname = match kind {
         Kind::Base => "base-factory",
@@ -689,7 +695,17 @@ fn probes(kind: Kind, code: usize, p: &Params, updates: &[Params]) -> Vec<Case> 
         v.push(Req { end_in: Some(5000 * S as i64), num_tokens: None, price: 0, ..base.clone() });
         v.push(Req { nft_ok: false, ..base.clone() });
     }
-    v.into_iter().map(|req| Case { kind, code, params: p.clone(), updates: updates.to_vec(), req }).collect()
+    let mut out: Vec<Case> = v.into_iter().map(|req| Case { kind, code, params: p.clone(), updates: updates.to_vec(), req, before_genesis: 0 }).collect();
+    if kind != Kind::Base && updates.is_empty() {
+        // the chain clock 1000 s before the genesis mint time: a start in the future of the clock but
+        // before / at / after genesis (only a pre-genesis clock can tell the genesis rule from the "not in the past" rule)
+        let back = 1000 * S;
+        for st in [back as i64 - 1, back as i64, back as i64 + 1, 1] {
+            let req = Req { start_in: st, end_in: base.end_in.map(|_| st + 5000 * S as i64), trading_in: None, ..base.clone() };
+            out.push(Case { kind, code, params: p.clone(), updates: vec![], req, before_genesis: back });
+        }
+    }
+    out
 }
 
 fn gen_cases(a: &Args) -> Vec<Case> {
@@ -777,7 +793,7 @@ fn gen_cases(a: &Args) -> Vec<Case> {
         if kind == Kind::Open && rng.chance(1, 3) {
             req.end_in = if rng.chance(1, 2) { None } else { Some(req.start_in + rng.below(3) as i64 - 1) };
         }
-        v.push(Case { kind, code, params: p, updates: vec![], req });
+        v.push(Case { kind, code, params: p, updates: vec![], req, before_genesis: 0 });
     }
     v
 }
